@@ -95,7 +95,8 @@ def executes(spec, case):
 #     whether a failing case shows that root cause. Consulted in the fixed order ROOT_CAUSES.
 ROOT_CAUSES = ['extract:derived-type-imported-by-enclosing-module', 'extract:host-array-referenced-in-several-forms',
                'extract:host-parameter-becomes-dummy-argument', 'outline:array-extent-variable-not-passed',
-               'outline:variable-only-enquired-about-not-passed',
+               'outline:variable-only-enquired-about-not-passed', 'outline:variable-spelled-in-different-letter-case',
+               'extract:new-dummy-is-inout-though-only-read', 'extract:call-between-internal-procedures-not-updated',
                'transform_file:keyword-arguments-to-external-procedure', 'transform_file:extracted-function-undeclared-in-caller']
 
 _HEAD = """module tmod
@@ -183,6 +184,57 @@ contains
   end subroutine kernel
 end module kmod
 """),
+    'outline:variable-spelled-in-different-letter-case': ('outline', {}, """module kmod
+  implicit none
+contains
+  subroutine kernel(n, za, y)
+    integer, intent(in) :: n
+    real(kind=8), intent(inout) :: za(3)
+    real(kind=8), intent(inout) :: y
+!$loki outline
+    y = y + za(2)
+    ZA(2) = y
+!$loki end outline
+  end subroutine kernel
+end module kmod
+"""),
+    'extract:new-dummy-is-inout-though-only-read': ('extract', {}, """module kmod
+  implicit none
+contains
+  subroutine kernel(n, y)
+    integer, intent(in) :: n
+    integer, intent(inout) :: y
+    integer :: j
+    do j = 1, 3
+      call isub(y)
+    end do
+  contains
+    subroutine isub(r)
+      integer, intent(inout) :: r
+      r = r + j
+    end subroutine isub
+  end subroutine kernel
+end module kmod
+"""),
+    'extract:call-between-internal-procedures-not-updated': ('extract', {}, """module kmod
+  implicit none
+contains
+  subroutine kernel(n, y)
+    integer, intent(in) :: n
+    integer, intent(inout) :: y
+    call isub1(y)
+  contains
+    subroutine isub0(r)
+      integer, intent(inout) :: r
+      r = r + n
+    end subroutine isub0
+    subroutine isub1(r)
+      integer, intent(inout) :: r
+      call isub0(r)
+    end subroutine isub1
+  end subroutine kernel
+end module kmod
+"""),
     'transform_file:keyword-arguments-to-external-procedure': ('trafo_file', {'extract_internals': True}, """subroutine kernel(n, y)
   implicit none
   integer, intent(in) :: n
@@ -248,7 +300,19 @@ def exclusions(spec):
                 and defect_present('extract:derived-type-imported-by-enclosing-module'):
             fl['routine_use'] = True
             why.append('extract: derived type of a host variable imported by the enclosing module -> KeyError')
+        if defect_present('extract:new-dummy-is-inout-though-only-read'):
+            for trigger in ('int_host_loopvar', 'int_pure_host'):
+                if fl.get(trigger):
+                    fl[trigger] = False
+                    why.append('extract: host variable that is only read becomes an INTENT(INOUT) argument '
+                               '(DO variable of the host / PURE internal function): ' + trigger)
+        if fl.get('int_calls_int') and defect_present('extract:call-between-internal-procedures-not-updated'):
+            fl['int_calls_int'] = False
+            why.append('extract: call from one internal procedure to another is not given the new arguments')
     if app['outline']:
+        if fl.get('mixed_case') and defect_present('outline:variable-spelled-in-different-letter-case'):
+            fl['mixed_case'] = False
+            why.append('outline: variable spelled in different letter case inside the region -> declared twice')
         if fl.get('reg_dimvar') and fl.get('reg_dimvar_implicit') and defect_present('outline:array-extent-variable-not-passed'):
             fl['reg_dimvar_implicit'] = False
             why.append('outline: extent variable of a region array not used in the region -> not passed')
@@ -264,7 +328,7 @@ def diagnose(spec):
     """the listed root causes that the IR of this case shows, in ROOT_CAUSES order (pure function of spec and tree)"""
     from ..fprog import harness
     from loki import Subroutine, Module
-    from loki.ir import FindNodes, CallStatement, FindVariables, FindInlineCalls
+    from loki.ir import FindNodes, CallStatement, Loop, FindVariables, FindInlineCalls
     from loki.types import DerivedType
     from loki.expression import symbols as sym
     case = GEN.build(spec)
@@ -283,6 +347,7 @@ def diagnose(spec):
         return out
 
     old_names = {r.name.lower() for r, _ in routines_of(sf)}
+    internal_names = {i.name.lower() for r, _ in routines_of(sf) for i in r.subroutines}
     if app['extract']:
         for r, _ in routines_of(sf):
             imported = {s.name.lower() for i in r.imports for s in i.symbols}
@@ -303,7 +368,30 @@ def diagnose(spec):
             found.add('extract:host-array-referenced-in-several-forms')
         if any(getattr(a.type, 'parameter', None) for a in r.arguments):
             found.add('extract:host-parameter-becomes-dummy-argument')
+        if app['extract']:
+            by_name = {x.name.lower(): x for x, _ in routines_of(sf)}
+            for c in FindNodes(CallStatement).visit(r.body):
+                callee = by_name.get(str(c.name).lower())
+                if callee is not None and callee.name.lower() in internal_names and r.name.lower() in internal_names:
+                    need = [a for a in callee.arguments if not a.type.optional]
+                    if len(c.arguments) + len(c.kwarguments) < len(need):
+                        found.add('extract:call-between-internal-procedures-not-updated')
+            if r.is_function and 'pure' in [str(p).lower() for p in r.prefix] and \
+                    any(a.type.intent != 'in' for a in r.arguments):
+                found.add('extract:new-dummy-is-inout-though-only-read')
+            for loop in FindNodes(Loop).visit(r.body):
+                for c in FindNodes(CallStatement).visit(loop.body):
+                    callee = by_name.get(str(c.name).lower())
+                    if callee is None:
+                        continue
+                    for k, v in c.kwarguments:
+                        d = callee.variable_map.get(k)
+                        if str(v).lower() == str(loop.variable).lower() and d is not None and d.type.intent in ('inout', 'out'):
+                            found.add('extract:new-dummy-is-inout-though-only-read')
         if r.name.lower() not in old_names and app['outline']:
+            lowered = [v.name.lower() for v in r.variables]
+            if len(set(lowered)) < len(lowered):
+                found.add('outline:variable-spelled-in-different-letter-case')
             visible = {v.name.lower() for v in r.variables} | {s.name.lower() for s in r.all_imported_symbols}
             if mod is not None:
                 visible |= {v.name.lower() for v in mod.variables}
